@@ -24,7 +24,7 @@
 From Coq Require Import List NArith Bool Arith.
 From Atlas Require Import Base.Bytes Base.Stutter Exec.ExecModel Exec.ExecProofs Exec.StepProofs
   Exec.PendingModel Exec.PendingProofs Exec.RunModel Exec.TxModel Exec.TxProofs Exec.RunProofs
-  Exec.ReuseModel Exec.ReuseProofs Exec.StoreModel Exec.StoreTxModel Exec.StoreTxProofs Exec.StoreTxDirProofs Exec.StoreTxAllProofs.
+  Exec.ReuseModel Exec.ReuseProofs Exec.StoreModel Exec.StoreTxModel Exec.StoreTxProofs Exec.StoreTxDirProofs Exec.StoreTxAllProofs Exec.StoreTxCompleteProofs Exec.StoreTxOnceProofs.
 Import ListNotations.
 
 (** The first failing file ends the run: nothing of the later files is touched. *)
@@ -222,6 +222,46 @@ Theorem C09_resume_store_any_mode :
     claimed_plan hash all (s_tbl (m_final hash outs (mkSdb [] []))) = firstn P (plan all).
 Proof. exact resume_store_any_full. Qed.
 Print Assumptions C09_resume_store_any_mode.
+
+(** 3b/5-store. Completion over the store: after ANY such history (any
+    --tx-mode, count and fault stream per run; directives), one more run without
+    faults and without a count under --tx-mode none | file whose directives are
+    valid for that mode completes the migration: the database's journal is the
+    WHOLE plan (repeats bounded by the failed upserts directly after a statement),
+    every file's stored revision has Applied = Total = its statement count, and
+    Pending has nothing to do. *)
+Theorem C09_complete_marks_done_store :
+  forall (hash : Type) (heq : hash -> hash -> bool) (HS : bytes -> hash),
+  (forall a b, heq a b = true <-> a = b) ->
+  forall tfull : list tfile, sorted_files (map tf_file tfull) ->
+  forall (rs : list m_run) (g : mode), Forall (mrun_any_on tfull) rs ->
+  g <> TxAll -> (forall tf, In tf tfull -> mode_for g tf <> None) ->
+  let all := from_last_ckpt (map tf_file tfull) in
+  let outs := m_history hash heq HS (rs ++ [mkMRun g 0 tfull []]) (mkSdb [] []) in
+  let Dn := m_final hash outs (mkSdb [] []) in
+  (exists reps, length reps = length (plan all) /\
+                s_journal Dn = expand (plan all) reps /\ list_sum reps <= m_wf hash outs) /\
+  (forall f, In f all -> exists r, tbl_get (s_tbl Dn) (f_version f) = Some r /\
+                                   r_applied r = length (f_stmts f) /\ r_total r = length (f_stmts f)) /\
+  (forall c', cfg_ok c' -> pending c' (map tf_file tfull) (read_revisions hash (s_tbl Dn)) = (PNoPending, None)).
+Proof. exact complete_store_full. Qed.
+Print Assumptions C09_complete_marks_done_store.
+
+(** 4-store. Exactly once over the store: if no revisions upsert fails in any
+    run (statements and revisions SELECTs may fail anywhere and any number of
+    times, transactions may be rolled back, any --tx-mode per run), then after
+    the completing run the database's journal IS the plan. *)
+Theorem C09_exactly_once_store :
+  forall (hash : Type) (heq : hash -> hash -> bool) (HS : bytes -> hash),
+  (forall a b, heq a b = true <-> a = b) ->
+  forall tfull : list tfile, sorted_files (map tf_file tfull) ->
+  forall (rs : list m_run) (g : mode), Forall (mrun_any_on tfull) rs ->
+  g <> TxAll -> (forall tf, In tf tfull -> mode_for g tf <> None) ->
+  let outs := m_history hash heq HS (rs ++ [mkMRun g 0 tfull []]) (mkSdb [] []) in
+  (forall out r, In out outs -> ~ In (EWrite r false) (snd out)) ->
+  s_journal (m_final hash outs (mkSdb [] [])) = plan (from_last_ckpt (map tf_file tfull)).
+Proof. exact exactly_once_store_full. Qed.
+Print Assumptions C09_exactly_once_store.
 Print Assumptions C09_stop_on_fault.
 Print Assumptions C09_never_overclaims.
 Print Assumptions C09_resume.
@@ -475,6 +515,34 @@ Example C09_resume_store_any_mode_nonvacuous :
   [ (XRun (MFail (SExec OStmtErr)), [], []);
     (XRun MDone, [[65%N]; [66%N]; [67%N]; [68%N]], [(2, 2); (2, 2)]) ].
 Proof. split; [repeat constructor|]. vm_compute. reflexivity. Qed.
+
+(** the history [dx_runs] above is three faulty runs followed by exactly such a clean run *)
+Example C09_complete_marks_done_store_nonvacuous :
+  firstn 3 dx_runs ++ [mkMRun TxNone 0 dx_dir []] = dx_runs /\
+  Forall (mrun_any_on dx_dir) (firstn 3 dx_runs) /\
+  forallb (fun tf => match mode_for TxNone tf with Some _ => true | None => false end) dx_dir = true /\
+  let Dn := m_final bytes (m_history bytes bytes_eqb (fun b => b) dx_runs (mkSdb [] [])) (mkSdb [] []) in
+  map (fun r => (r_applied r, r_total r)) (s_tbl Dn) = [(2, 2); (2, 2)] /\
+  s_journal Dn = expand (plan (map tf_file dx_dir)) [0; 0; 1; 0] /\
+  fst (pending ex_cfg (map tf_file dx_dir) (read_revisions bytes (s_tbl Dn))) = PNoPending.
+Proof. split; [reflexivity|]. split; [repeat constructor|]. vm_compute. repeat split; reflexivity. Qed.
+
+(** only statements and a SELECT fail (run 1: statement B inside file 1's transaction, rolled back;
+    run 2: the SELECT of file 2's revision; run 3: statement D on the connection): every statement once. *)
+Definition ox_runs : list m_run :=
+  let F := false in let T := true in
+  [ mkMRun TxNone 0 dx_dir [F; F; F; F; F; F; T];
+    mkMRun TxNone 0 dx_dir [F; F; F; F; F; F; F; F; F; T];
+    mkMRun TxNone 0 dx_dir [F; F; F; F; F; F; T] ].
+
+Example C09_exactly_once_store_nonvacuous :
+  Forall (mrun_any_on dx_dir) ox_runs /\
+  let outs := m_history bytes bytes_eqb (fun b => b) (ox_runs ++ [mkMRun TxNone 0 dx_dir []]) (mkSdb [] []) in
+  map (fun x => fst (fst x)) outs =
+    [XRun (MFail (SExec OStmtErr)); XRun (MFail SReadErr); XRun (MFail (SExec OStmtErr)); XRun MDone] /\
+  forallb (fun out => forallb (fun e => match e with EWrite _ false => false | _ => true end) (snd out)) outs = true /\
+  s_journal (m_final bytes outs (mkSdb [] [])) = plan (map tf_file dx_dir).
+Proof. split; [repeat constructor|]. vm_compute. repeat split; reflexivity. Qed.
 
 Example C09_stop_nonvacuous :
   fst (fst (fst (execute bytes bytes_eqb (fun b => b) (mkFile [49%N] [[65%N]] false) [] [false; true]))) = OStmtErr.
